@@ -63,7 +63,6 @@ pub fn execute_with(sc: &Scenario, replay: Option<&[Event]>, keep_log: bool, opt
     let mut oracle = Oracle::new(&sc.property);
     if opts.dmq_without_dedup {
         w.agg.settings.dmq_dedup = false;
-        oracle.attribute_known = false;
     }
     let mut known_hits: Vec<(oracle::KnownHit, usize)> = vec![];
     let mut trace: Vec<Event> = vec![];
@@ -649,28 +648,51 @@ impl Engine for NetEngine {
     }
 }
 
-/// A run that met the trigger of a known finding (and nothing else): confirm the attribution by a
-/// counterfactual re-run of the trace up to the hit with the finding's mechanism taken out (the
-/// DMQ consumer reads the node without the deduplicating client, nothing is attributed). If the
-/// violation is still there it is not that finding's: it is reported as a plain violation.
+/// C16, honest deliveries that were not recorded: the statement speaks of what other parties'
+/// submissions do to a party's contribution, so each suspect is judged by counterfactual re-runs of
+/// the trace up to it.
+///  1. without the foreign material (every `Forge` event removed): if the delivery is still not
+///     recorded, no other party caused it (e.g. a retransmission after a refused first delivery
+///     is dropped by the message-queue deduplication) - counted, not judged;
+///  2. if the trigger of the known finding C16-dmq-dedup-ignores-sender is present: without the
+///     deduplicating client (and everything else kept); recorded there = that finding;
+///  3. anything else is a violation.
 fn known_hit_violations(sc: &Scenario, out: &Outcome, report: &mut RunReport) {
-    let Some((hit, trace_len)) = out.known_hits.first() else { return };
-    let prefix = &out.trace[..(*trace_len).min(out.trace.len())];
-    let counterfactual = execute_with(sc, Some(prefix), false, &ExecOptions { dmq_without_dedup: true, ..Default::default() });
-    let still_there = counterfactual.found.iter().any(|f| f.clause == hit.clause);
-    report.violations.push(Violation {
-        property: sc.property.clone(),
-        clause: hit.clause.clone(),
-        detail: format!("step {}: {}{}", hit.step, hit.detail, if still_there { " [still violated without the deduplicating client: not attributable to the known finding]" } else { "" }),
-        finding: if still_there { None } else { Some(hit.finding.clone()) },
-    });
-    let check = execute(sc, Some(prefix), true);
-    report.replay = Some(json!({
-        "scenario": sc,
-        "trace": prefix,
-        "original_trace_len": out.trace.len(),
-        "log": check.log,
-    }));
+    for (hit, trace_len) in out.known_hits.iter().take(4) {
+        let prefix = &out.trace[..(*trace_len).min(out.trace.len())];
+        if !hit.foreign_copy_before {
+            *report.counters.entry("probe_c16_unrecorded_without_foreign_material".into()).or_default() += 1;
+            continue;
+        }
+        let without_foreign: Vec<Event> = prefix.iter().filter(|e| !matches!(e, Event::Forge { .. })).cloned().collect();
+        let cf1 = execute_with(sc, Some(&without_foreign), false, &ExecOptions::default());
+        if cf1.known_hits.iter().any(|(h, _)| h.msg_id == hit.msg_id) {
+            *report.counters.entry("probe_c16_unrecorded_also_without_foreign_material".into()).or_default() += 1;
+            continue;
+        }
+        let mut finding = None;
+        if hit.dedup_trigger {
+            let cf2 = execute_with(sc, Some(prefix), false, &ExecOptions { dmq_without_dedup: true, ..Default::default() });
+            if !cf2.known_hits.iter().any(|(h, _)| h.msg_id == hit.msg_id) {
+                finding = Some(hit.finding.clone());
+            }
+        }
+        report.violations.push(Violation {
+            property: sc.property.clone(),
+            clause: hit.clause.clone(),
+            detail: format!("step {}: {} [recorded when the other parties' copies are taken out of the history{}]", hit.step, hit.detail,
+                if hit.dedup_trigger && finding.is_none() { "; still not recorded without the deduplicating client" } else { "" }),
+            finding,
+        });
+        let check = execute(sc, Some(prefix), true);
+        report.replay = Some(json!({
+            "scenario": sc,
+            "trace": prefix,
+            "original_trace_len": out.trace.len(),
+            "log": check.log,
+        }));
+        return;
+    }
 }
 
 fn main() {
